@@ -163,6 +163,53 @@ def history(tid, variant, rng, tier):
     return {"id": tid, "variant": variant, "ev": s.ev}
 
 
+def tlc_histories(depth):
+    """every behaviour of AsyncClientGen up to `depth` steps (exported by TLC)"""
+    from vcommon import run_tlc, tlc_ok, parse_printed
+    cfg = open(os.path.join(SPEC, "AsyncClientGen.cfg")).read().replace("GenDepth = 6", "GenDepth = %d" % depth)
+    res = run_tlc("AsyncClientGen", None, workers=8, timeout=900, cfg_text=cfg)
+    if not tlc_ok(res):
+        raise MachineryError("AsyncClientGen failed:\n" + "\n".join(res["out"].splitlines()[-20:]))
+    return parse_printed(res["out"], "HIST"), res
+
+
+def replay_model_history(tid, hist, variant):
+    """a TLC-generated history, written relative to the requests, replayed on the real protocol"""
+    s = Session(variant)
+    real = {}        # model deferred -> (real deferred, tid, uid)
+    outstanding = []
+    lost = False
+    for h in hist:
+        if h["op"] == "exec":
+            uid = 1 if variant == "fifo" else 1 + (h["d"] % 3)
+            d, t = s.execute(uid, 10 + h["d"])
+            real[h["d"]] = (d, t, uid)
+            if not lost and t != -1:
+                outstanding.append(h["d"])
+        elif h["op"] in ("reply", "dup") and h["d"] in real:
+            if variant == "fifo" and h["op"] == "reply" and outstanding and outstanding[0] != h["d"]:
+                continue                   # a serial line answers in order: out-of-order replies are not part of this variant
+            if variant == "fifo" and h["op"] == "dup":
+                continue                   # a second reply on a serial line is indistinguishable from the next reply
+            _, t, uid = real[h["d"]]
+            s.reply(t, uid)
+            if h["d"] in outstanding and not lost:
+                outstanding.remove(h["d"])
+        elif h["op"] == "unsol":
+            if variant == "dict":
+                used = {v[1] for v in real.values()}
+                s.reply(next(x for x in (4000, 4001, 4002, 4003, 4004, 4005, 4006, 4007, 4008) if x not in used), 1)
+        elif h["op"] == "lost" and not lost:
+            s.lost()
+            lost = True
+            outstanding = []
+    if not lost:
+        for md in list(outstanding):
+            _, t, uid = real[md]
+            s.reply(t, uid)
+    return {"id": tid, "variant": variant, "ev": s.ev, "source": "tlc"}
+
+
 def run(prop, tier):
     rng = random.Random(seed() * 7 + 16)
     rep = Report(prop, tier, "model_checking")
@@ -175,6 +222,13 @@ def run(prop, tier):
     rep.notes["model_deviations_rejected_by_tlc"] = ["OverwritesPending"]
     n = 3000 if tier == "quick" else 60000
     traces = [history("a%d" % k, "dict" if k % 4 else "fifo", rng, tier) for k in range(n)]
+    hists, gres = tlc_histories(7 if tier == "quick" else 9)
+    rep.add_mc(gres, "AsyncClientGen (behaviour export)")
+    rep.notes["tlc_generated_histories_replayed"] = len(hists)
+    for j, h in enumerate(hists):
+        traces.append(replay_model_history("g%d" % j, h, "dict"))
+        if j % 5 == 0:
+            traces.append(replay_model_history("f%d" % j, h, "fifo"))
     verdicts, st = validate_traces("AsyncTrace", "AsyncTrace.cfg", traces)
     rep.add_tv(st, len(traces), sum(len(t["ev"]) for t in traces))
     known = {f["id"]: f for f in open_findings(prop)}
